@@ -3,7 +3,8 @@
    arguments with to_absolute first and converts every vertex back with to_distance_mode; the shape
    functions themselves never see the distance mode. *)
 From Coq Require Import ZArith QArith Bool List.
-From GS Require Import model.Num model.Builder proofs.TrackProofs proofs.HooksProofs proofs.ModeProofs.
+From GS Require Import model.Num model.Builder model.Interp proofs.FlagsProofs proofs.TrackProofs proofs.HooksProofs proofs.ModeProofs
+  proofs.PathProofs.
 Import ListNotations.
 Open Scope Q_scope.
 
@@ -29,6 +30,49 @@ Theorem C11_vertex_reached : forall s v, tf s = aff_id ->
   let '(mv, tg) := transform_move s (to_distance_mode s v) in peq tg (resolve v).
 Proof. exact vertex_reached. Qed.
 Print Assumptions C11_vertex_reached.
+
+(* WHOLE TOOLPATHS.  A logical toolpath is a list of items: "go to this absolute waypoint" (linear or
+   rapid, any subset of axes) and "trace this shape" (its absolute vertices -- whatever the shape).
+   [cmds_for m L path] is how a caller phrases it in distance mode m: waypoints as they are in
+   absolute mode, as offsets from the logical position in relative mode; shapes identically.  With no
+   transform, bounds or hooks (nothing can be rejected) and for EVERY path: after every item the
+   builder is at the logical position of the path, in either mode ... *)
+Theorem C11_path_follows : forall dp m path s L, plain m s -> peq (pos s) L ->
+  peq (pos (final dp s (cmds_for m L path))) (lfinal L path) /\
+  Forall (fun r => err_of r = None) (run dp s (cmds_for m L path)) /\
+  plain m (final dp s (cmds_for m L path)).
+Proof. exact path_follows. Qed.
+Print Assumptions C11_path_follows.
+
+(* ... hence after every item (every prefix n) the absolute-mode and the relative-mode execution of
+   the same toolpath are at the same position ... *)
+Theorem C11_modes_agree : forall dp path n sa sr L, plain Absolute sa -> plain Relative sr ->
+  peq (pos sa) L -> peq (pos sr) L ->
+  peq (pos (final dp sa (firstn n (cmds_for Absolute L path)))) (pos (final dp sr (firstn n (cmds_for Relative L path)))).
+Proof. exact modes_agree. Qed.
+
+(* ... and so are the machines: each emitted program, read by the independent interpreter of C01,
+   leaves the machine where its builder is (Agree: up to the rounding of the emitted words). *)
+Theorem C11_machines_agree : forall dp path,
+  let ca := cmds_for Absolute zero path in
+  let cr := SetDistance (Member Relative) :: cmds_for Relative zero path in
+  Agree dp (final dp init ca) (pinterp_lines pmach0 (output dp init ca)) /\
+  Agree dp (final dp init cr) (pinterp_lines pmach0 (output dp init cr)) /\
+  peq (pos (final dp init ca)) (pos (final dp init cr)) /\
+  peq (pos (final dp init ca)) (lfinal zero path).
+Proof. exact machines_agree. Qed.
+Print Assumptions C11_machines_agree.
+
+(* non-vacuity: a partial waypoint, a shape, a rapid; the relative program really uses offsets *)
+Example C11_path_nonvacuous :
+  let path := [LMove Linear (mkpt (Some 10) (Some 4) None); LPath [mkpt (Some 12) (Some 4) (Some 1); mkpt (Some 12) (Some 9) (Some 1)];
+               LMove Rapid (mkpt None (Some 0) (Some 5)); LMove Linear (mkpt (Some (1 # 3)) None None)]%Q in
+  cmds_for Relative zero path =
+    [Move Linear (mkreq (Some (Fin 10)) (Some (Fin 4)) None) []; Polyline [mkpt (Some 12) (Some 4) (Some 1); mkpt (Some 12) (Some 9) (Some 1)] [];
+     Move Rapid (mkreq None (Some (Fin (-9))) (Some (Fin 4))) []; Move Linear (mkreq (Some (Fin (-35 # 3))) None None) []]%Q /\
+  lfinal zero path = mkpt (Some (1 # 3)) (Some 0) (Some 5)%Q /\
+  map (fun l => l) (output 3 rel_start (cmds_for Relative zero path)) <> output 3 init (cmds_for Absolute zero path).
+Proof. vm_compute. repeat split. discriminate. Qed.
 
 (* non-vacuity: from (10, 0, unknown), target x = 4, y = 6 *)
 Example C11_nonvacuous :
